@@ -64,23 +64,23 @@ const (
 )
 
 var families = map[string]famRow{
-	"chainName":                             {exporter: clKeeper + "Keeper.GetChainName", importer: clKeeper + "Keeper.SetChainName"},
-	"relayers⟨v⟩":                           {exporter: clKeeper + "Keeper.GetAllRelayers", importer: clKeeper + "Keeper.RegisterRelayers"},
-	"clients/⟨s⟩/clientState":               {exporter: clKeeper + "Keeper.IterateClients", importer: clKeeper + "Keeper.SetClientState"},
-	"clients/⟨s⟩/consensusStates/⟨be8⟩⟨be8⟩": {exporter: clKeeper + "Keeper.IterateConsensusStates", importer: clKeeper + "Keeper.SetClientConsensusState"},
+	"chainName":               {exporter: clKeeper + "Keeper.GetChainName", importer: clKeeper + "Keeper.SetChainName"},
+	"relayers⟨v⟩":             {exporter: clKeeper + "Keeper.GetAllRelayers", importer: clKeeper + "Keeper.RegisterRelayers"},
+	"clients/⟨s⟩/clientState": {exporter: clKeeper + "Keeper.IterateClients", importer: clKeeper + "Keeper.SetClientState"},
+	"clients/⟨s⟩/consensusStates/⟨be8⟩⟨be8⟩":               {exporter: clKeeper + "Keeper.IterateConsensusStates", importer: clKeeper + "Keeper.SetClientConsensusState"},
 	"clients/⟨s⟩/consensusStates/⟨be8⟩⟨be8⟩/processedTime": {exporter: tmT + "IterateProcessedTime", importer: clKeeper + "Keeper.SetAllClientMetadata"},
-	"clients/⟨s⟩/iterateConsensusStates⟨slice⟩":           {exporter: "", importer: clKeeper + "Keeper.SetAllClientMetadata"},
-	"clients/⟨s⟩/recentSingers/⟨s⟩":                       {exporter: bscT + "IteratorTraversal", via: "recentSingers", importer: clKeeper + "Keeper.SetAllClientMetadata"},
-	"clients/⟨s⟩/pendingValidators":                       {exporter: bscT + "IteratorTraversal", via: "pendingValidators", importer: clKeeper + "Keeper.SetAllClientMetadata"},
-	"clients/⟨s⟩/ethHeaderIndex/⟨s⟩⟨d⟩":                   {exporter: ethT + "IteratorEthMetaDataByPrefix", via: "ethHeaderIndex", importer: clKeeper + "Keeper.SetAllClientMetadata"},
-	"clients/⟨s⟩/ethRootMain/⟨s⟩⟨d⟩":                      {exporter: ethT + "IteratorEthMetaDataByPrefix", via: "ethRootMain", importer: clKeeper + "Keeper.SetAllClientMetadata"},
-	"nextSequenceSend/⟨s⟩/⟨s⟩":                            {exporter: pkKeeper + "Keeper.GetAllPacketSendSeqs", importer: pkKeeper + "Keeper.SetNextSequenceSend"},
-	"commitments/⟨s⟩/⟨s⟩/sequences/⟨d⟩":                   {exporter: pkKeeper + "Keeper.IteratePacketCommitment", importer: pkKeeper + "Keeper.SetPacketCommitment"},
-	"receipts/⟨s⟩/⟨s⟩/sequences/⟨d⟩":                      {exporter: pkKeeper + "Keeper.IteratePacketReceipt", importer: pkKeeper + "Keeper.SetPacketReceipt"},
-	"acks/⟨s⟩/⟨s⟩/sequences/⟨d⟩":                          {exporter: pkKeeper + "Keeper.IteratePacketAcknowledgement", importer: pkKeeper + "Keeper.SetPacketAcknowledgement"},
-	"⟨const:1⟩⟨v⟩": {exporter: "x/aggregate/keeper.Keeper.GetAllTokenPairs", importer: "x/aggregate/keeper.Keeper.SetTokenPair"},
-	"⟨const:2⟩⟨v⟩": {derived: true, importer: "x/aggregate/keeper.Keeper.SetERC20Map"},
-	"⟨const:3⟩⟨v⟩": {derived: true, importer: "x/aggregate/keeper.Keeper.SetDenomMap"},
+	"clients/⟨s⟩/iterateConsensusStates⟨slice⟩":            {exporter: "", importer: clKeeper + "Keeper.SetAllClientMetadata"},
+	"clients/⟨s⟩/recentSingers/⟨s⟩":                        {exporter: bscT + "IteratorTraversal", via: "recentSingers", importer: clKeeper + "Keeper.SetAllClientMetadata"},
+	"clients/⟨s⟩/pendingValidators":                        {exporter: bscT + "IteratorTraversal", via: "pendingValidators", importer: clKeeper + "Keeper.SetAllClientMetadata"},
+	"clients/⟨s⟩/ethHeaderIndex/⟨s⟩⟨d⟩":                    {exporter: ethT + "IteratorEthMetaDataByPrefix", via: "ethHeaderIndex", importer: clKeeper + "Keeper.SetAllClientMetadata"},
+	"clients/⟨s⟩/ethRootMain/⟨s⟩⟨d⟩":                       {exporter: ethT + "IteratorEthMetaDataByPrefix", via: "ethRootMain", importer: clKeeper + "Keeper.SetAllClientMetadata"},
+	"nextSequenceSend/⟨s⟩/⟨s⟩":                             {exporter: pkKeeper + "Keeper.GetAllPacketSendSeqs", importer: pkKeeper + "Keeper.SetNextSequenceSend"},
+	"commitments/⟨s⟩/⟨s⟩/sequences/⟨d⟩":                    {exporter: pkKeeper + "Keeper.IteratePacketCommitment", importer: pkKeeper + "Keeper.SetPacketCommitment"},
+	"receipts/⟨s⟩/⟨s⟩/sequences/⟨d⟩":                       {exporter: pkKeeper + "Keeper.IteratePacketReceipt", importer: pkKeeper + "Keeper.SetPacketReceipt"},
+	"acks/⟨s⟩/⟨s⟩/sequences/⟨d⟩":                           {exporter: pkKeeper + "Keeper.IteratePacketAcknowledgement", importer: pkKeeper + "Keeper.SetPacketAcknowledgement"},
+	"⟨const:1⟩⟨v⟩":                                         {exporter: "x/aggregate/keeper.Keeper.GetAllTokenPairs", importer: "x/aggregate/keeper.Keeper.SetTokenPair"},
+	"⟨const:2⟩⟨v⟩":                                         {derived: true, importer: "x/aggregate/keeper.Keeper.SetERC20Map"},
+	"⟨const:3⟩⟨v⟩":                                         {derived: true, importer: "x/aggregate/keeper.Keeper.SetDenomMap"},
 }
 
 func c13(c *Check) {
